@@ -28,9 +28,17 @@ Spec == Init /\ [][Next]_<<g, k>>
 Lines(m) == LET keep == {i \in 1..Len(m) : ~(m[i] = 13 /\ i < Len(m) /\ m[i + 1] = 10)}
                 idx == SetToSortSeq(keep, LAMBDA a, b : a < b)
             IN [j \in 1..Len(idx) |-> IF m[idx[j]] = 13 THEN 10 ELSE m[idx[j]]]
+\* sessions under a size limit (lim > 0; the exact boundary belongs to C07 and is left open within two bytes): a message over
+\* the limit is refused as a whole after its terminator (res = "big") and nothing is queued - in particular no prefix of it
+StoredSize(lines) == LET n == Len(lines) IN IF n = 0 THEN 0 ELSE n + Len(Flat(lines))
 Verdict(r) ==
-  LET v == DecVerdict(r.s, r.res, r.msg, -1, r.q = 1)
-      ref == RefRecv(r.s)
+  LET ref == RefRecv(r.s)
+      sz == IF ref.st = "end" THEN StoredSize(ref.lines) ELSE 0
+      v == IF r.lim > 0 /\ r.res = "big"
+             THEN (IF r.q = 1 THEN "QueuedDespiteSizeRefusal" ELSE IF ref.st # "end" THEN "SizeRefusalBeforeTheTerminator"
+                   ELSE IF sz < r.lim - 2 THEN "SmallMessageRefusedForSize" ELSE "")
+           ELSE IF r.lim > 0 /\ r.res = "end" /\ ref.st = "end" /\ sz > r.lim + 2 THEN "MessageOverTheLimitAccepted"
+           ELSE DecVerdict(r.s, r.res, r.msg, -1, r.q = 1)
   IN IF v # "" THEN v
      ELSE IF r.orig # <<-1>> /\ r.msg # Lines(r.orig) THEN "RoundTripChangedMessage"     \* decode(encode(m)) = m, line by line
      ELSE IF ref.st = "end" /\ r.nlf # -1 /\ r.nlf # NumLF(SubSeq(r.s, ref.used + 1, Len(r.s))) THEN "BytesAfterTerminatorNotCommands"
